@@ -1068,12 +1068,14 @@ impl<M: Machine> S2<M> {
         if via != Via::Replay && !self.dead {
             // what the allocator handed out: on the packet, or on the publish it parked
             let id = match &c.outcome {
-                Outcome::Ok(Some(p)) if p.pkid() != 0 => Some(p.pkid()),
+                // (only these draw an id; a manual PUBACK / PUBREC request carries the broker's id)
+                Outcome::Ok(Some(p)) if p.pkid() != 0 && matches!(p, Pk::Publish { .. } | Pk::Subscribe { .. } | Pk::Unsubscribe { .. }) => Some(p.pkid()),
                 Outcome::Ok(None) => self.st.collision().map(|p| p.pkid()).filter(|i| *i != 0),
                 _ => None,
             };
             if let Some(id) = id {
-                self.last_issued = if id >= self.limit_eff { 0 } else { id };
+                // (the v5 allocator wraps only when the id it hands out *equals* the limit; 3.1.1 likewise)
+                self.last_issued = if id == self.limit_eff { 0 } else { id };
             }
         }
         c
@@ -1116,6 +1118,9 @@ impl<M: Machine> S2<M> {
             self.limit_eff = (*rm).min(self.limit_cfg);
             self.limit_ever_lowered |= self.limit_eff < self.limit_cfg;
             self.lowered_to_or_below_last_id |= self.last_issued >= self.limit_eff;
+            if std::env::var("VERIF_DEBUG_MODEL").is_ok() {
+                eprintln!("    s2: limit in force {} (configured {}), id handed out last {}", self.limit_eff, self.limit_cfg, self.last_issued);
+            }
         }
         c
     }
@@ -1179,6 +1184,9 @@ impl<M: Machine> S2<M> {
             self.limit_eff = (*rm).min(self.limit_cfg);
             self.limit_ever_lowered |= self.limit_eff < self.limit_cfg;
             self.lowered_to_or_below_last_id |= self.last_issued >= self.limit_eff;
+            if std::env::var("VERIF_DEBUG_MODEL").is_ok() {
+                eprintln!("    s2: limit in force {} (configured {}), id handed out last {}", self.limit_eff, self.limit_cfg, self.last_issued);
+            }
         }
         Some(c)
     }
@@ -1193,6 +1201,9 @@ impl<M: Machine> S2<M> {
             self.limit_eff = (*rm).min(self.limit_cfg);
             self.limit_ever_lowered |= self.limit_eff < self.limit_cfg;
             self.lowered_to_or_below_last_id |= self.last_issued >= self.limit_eff;
+            if std::env::var("VERIF_DEBUG_MODEL").is_ok() {
+                eprintln!("    s2: limit in force {} (configured {}), id handed out last {}", self.limit_eff, self.limit_cfg, self.last_issued);
+            }
         }
         Some(c)
     }
